@@ -418,9 +418,23 @@ impl WorldC {
                         }
                     }
                     3 => {
+                        for k in 0..ns {
+                            if self.transport.client_addr(self.slots[k].id).is_some() {
+                                self.slots[k].app_disconnected_server = true;
+                            }
+                        }
                         self.transport.disconnect_all(&mut self.server);
                         self.pump_events(obs);
                         self.collect_outbox(obs);
+                        // "disconnects all connected clients ... use this when closing": nothing may be left in either layer
+                        obs.count("oracle.C20.disconnect_all_complete");
+                        let left: Vec<u64> = (1..self.next_id).filter(|id| self.transport.client_addr(*id).is_some()).collect();
+                        if self.transport.connected_clients() != 0 || !left.is_empty() {
+                            obs.violate("C20", "disconnect-all-left-sessions", "netcode-layer", format!("still connected: {:?}", left));
+                        }
+                        if self.server.has_connections() {
+                            obs.violate("C20", "disconnect-all-left-sessions", "message-layer", format!("connected {:?} disconnected-but-present {:?}", self.server.clients_id(), self.server.disconnections_id()));
+                        }
                     }
                     _ => {
                         for k in 0..ns {
@@ -576,6 +590,19 @@ impl WorldC {
             self.apply_op(&Op::new(K_DELIVERALL, j as u64, 1, 0, 0), obs);
         }
         self.apply_op(&Op::new(K_RECV, 0, 0, 0, 0), obs);
+        if let Ok(v) = std::env::var("VERIF_DEBUG_SLOT") {
+            let j: usize = v.parse().unwrap_or(0);
+            let s = &self.slots[j];
+            eprintln!(
+                "round: slot {} client {:?} since_client {:?} server_since {:?} pools {} {}",
+                j,
+                s.client.as_ref().map(|(c, t)| (c.is_connected(), t.disconnect_reason())),
+                s.client.as_ref().map(|(_, t)| t.time_since_last_received_packet()),
+                self.transport.time_since_last_received_packet(s.id),
+                s.to_server.len(),
+                s.to_client.len()
+            );
+        }
     }
 
     pub fn run_epilogue(&mut self, obs: &mut Obs) {
@@ -615,10 +642,33 @@ impl WorldC {
             }
         }
         obs.count_by("fault.socket_error_fired", self.net.0.borrow().send_err_fired + self.net.0.borrow().recv_err_fired);
+        if std::env::var("VERIF_DEBUG").is_ok() {
+            for j in 0..ns {
+                let s = &self.slots[j];
+                eprintln!(
+                    "slot {} id {} client {:?} server_renet_connected {} netcode_addr {:?} since {:?} client_clock {} sv {} err {:?}",
+                    j,
+                    s.id,
+                    s.client.as_ref().map(|(c, t)| (c.is_connected(), c.disconnect_reason(), t.disconnect_reason())),
+                    self.server.is_connected(s.id),
+                    self.transport.client_addr(s.id),
+                    self.transport.time_since_last_received_packet(s.id),
+                    s.clock_ms,
+                    self.sv_ms,
+                    s.last_transport_err
+                );
+            }
+        }
         for j in 0..ns {
             let id = self.slots[j].id;
             let server_has = self.server.is_connected(id) || self.transport.client_addr(id).is_some();
             let client_state = self.slots[j].client.as_ref().map(|(c, t)| (c.is_connected(), c.is_disconnected(), t.disconnect_reason()));
+            if self.slots[j].tainted {
+                // a second session for one token (duplicated or replayed request + response, known finding C04): the client
+                // object still holds the first session's replay window and starves; both ends need their own timeouts
+                obs.count("epilogue.agreement_skipped_second_session_of_token");
+                continue;
+            }
             obs.count("oracle.C20.both_sides_agree_after_heal");
             match client_state {
                 Some((connected, disconnected, _)) => {
